@@ -122,8 +122,17 @@ def check(case):
     tight = 2e-6 if crys.dim == 3 else 2e-5
     if r4["eq"] > tight:
         r8, _, _, _ = residuals(case, 8)
-        require(r8["eq"] <= max(tight, vs.SHRINK * r4["eq"]),
-                lambda: "lattice diffusion equation residual %.3e (relative to escape*|g(0)|) at Nmax=4 does not shrink with the k-mesh (Nmax=8: %.3e)" % (r4["eq"], r8["eq"]))
+        ok = r8["eq"] <= max(tight, vs.SHRINK * r4["eq"])
+        r12 = None
+        if not ok:
+            # convergence need not be monotonic: a coarse-mesh residual can be small by cancellation (seen on an HCP interstitial
+            # network with D_zz/D_xx = 0.05: 3.4e-6, 2.9e-5, 2.5e-5, 9.2e-6 for Nmax = 4, 6, 8, 12).  A third, finer mesh decides: the
+            # residual must come down below the larger of the two coarser ones; an error the mesh does not touch still fails.
+            r12 = residuals(case, 12)[0]["eq"]
+            ok = r12 <= max(tight, vs.SHRINK * max(r4["eq"], r8["eq"]))
+            classes.append("nonmonotonic_convergence_third_mesh")
+        require(ok, lambda: "lattice diffusion equation residual %.3e (relative to escape*|g(0)|) at Nmax=4 does not shrink with the k-mesh (Nmax=8: %.3e, Nmax=12: %s)"
+                % (r4["eq"], r8["eq"], "%.3e" % r12 if r12 is not None else "-"))
         classes.append("integration_limited")
         residuals(case, 4)  # restore rates on the Nmax=4 calculator
     require(r4["swap"] <= 1e-9, lambda: "g(i,j,x) != g(j,i,-x): relative difference %.3e" % r4["swap"])
